@@ -5,8 +5,15 @@ PROP = {
     "glue": "GH", "chk": "chk05", "explain": "explainH",
     "gotags": ["shim_memory", "shim_redis", "shim_timecache"],
     "n": {"quick": 120, "thorough": 3000},
-    "rule": HIST_RULE + " Emphasis C05: announce/scrape/store-op mix; every scrape, response count, delete result and membership dump is compared.",
+    "rule": HIST_RULE + " Emphasis C05: expiry heavy: cutoffs on both sides of (never equal to) recorded clock values, dumps and AnnouncePeers right after a pass.",
     "tags": HIST_TAGS, "reasons": HIST_REASONS, "assumptions": HIST_ASSUMPTIONS,
     "trivial_tags": [], "min_tags": 4,
-    "explanation": "placeholder",
+    "explanation": "Coq theorems: expiry with cutoff T keeps exactly the memberships announced after T (expiry_exact), emptied swarms disappear, a re-announce stores the current clock, the memory store's pass equals its per-swarm steps in any order and refines the specification's expiry inside any history; Redis sequential expiry refines it too (Proofs/RedisP.v). Tied to collectGarbage of both stores through overlay shims on generated histories with membership dumps (incl. times) after passes.",
+}
+
+CLAIM = {
+    "text": "Coq theorems: expiry with cutoff T keeps exactly the memberships announced after T (expiry_exact), emptied swarms disappear, a re-announce stores the current clock, the memory store's pass equals its per-swarm steps in any order and refines the specification's expiry inside any history; Redis sequential expiry refines it too (Proofs/RedisP.v). Tied to collectGarbage of both stores through overlay shims on generated histories with membership dumps (incl. times) after passes.",
+    "design_ref": "DESIGN.md section 8, C05",
+    "note": "PARTIAL: the interleaving of a pass with concurrent announces is exercised by C04's schedule exploration, not proved here; for Redis a re-announce between a pass's HGETALL and HDEL can be lost (DESIGN 9.A F10, known finding). Trusted: as C01; entries exactly at the cutoff are not generated.",
+    "technique": "Coq refinement/invariant proofs over executable Gallina store models + differential history correspondence (vm_compute)",
 }
